@@ -53,6 +53,18 @@ NOT DECIDED
   * That the bytes of a `Uleb`/`Sleb`/`U` field are the DWARF encodings (K-WPRIM/K-LEB), and that `uleb_bytes(v)` decodes to v
     (K-LEB `k_leb_uleb_roundtrip_all`: Leb128::unsigned(x).bytes() reads back as x for every u64).
   * `Ok` is never guaranteed (a Writer may fail for its own reasons).
+SELF-ATTACK (scratch copy of /repo/src, GIMLI_REPO; 2026-09-24; all caught by a TAGGED clause unless marked):
+  set_address length `2 + address_size` -> insn-set_address, insn-len, C18:line-set-address | end_sequence length 0 -> insn-end_sequence
+  AdvanceLine as ULEB -> insn-advance_line, insn-len | SetColumn as SLEB -> insn-set_column, insn-len
+  new variant FixedAddPc(u16) written as ULEB -> insn-fixed_advance_pc, insn-len (written with write_u16: passes, as it must)
+  SetAddress through write_udata -> insn-set_address, C18:line-set-address | set_discriminator sub-opcode := DW_LNE_define_file ->
+  insn-set_discriminator (:= DW_LNS_set_file has the SAME value 4: equivalent text, passes) | its length without the sub-opcode
+  byte -> insn-set_discriminator | its operand `Leb128::unsigned(val ^ 1)` -> insn-set_discriminator, insn-len
+  SetFile writes the 0-based index -> insn-set_file | Copy with the opcode of negate_stmt -> insn-copy
+  StringRef through write_udata -> string-strp, C18:line-string-ref | inline string without NUL -> string-inline, string-len
+  LineStringRef against .debug_str -> string-line-strp, C18:line-string-ref | refs allowed in version 4 -> string-ref-needs-v5
+  form check dropped -> string-form-mismatch | Leb128::unsigned continuation bit `if val > 1` -> leb-bytes
+  FileId::raw `version < 4` -> file-id-raw
 OBSERVATION (not a failing obligation)  LineString::write checks `form != self.form()` before anything else, so an inline
   string under DW_FORM_strp is an error, never a silent mis-encoding.
 """
